@@ -8,7 +8,8 @@ use copia_simworld::kernel::{peek, ProgramFn};
 use copia_simworld::shim::std_fs as sfs;
 use copia_simworld::shim::std_io as sio;
 use std::io::{Read, Write};
-use std::time::{Duration, UNIX_EPOCH};
+use copia_simworld::shim::std_time::UNIX_EPOCH;
+use std::time::Duration;
 
 pub const REMOTE_HOME: &str = "/home/remote";
 
@@ -16,8 +17,54 @@ pub fn ssh_program(args: Vec<String>) -> ProgramFn {
     Box::new(move || ssh_main(&args))
 }
 
+/// Where the shell's and its commands' diagnostics go (`2>/dev/null`, `2>file`, `2>&1`).
+enum ErrTarget {
+    Proc,
+    Null,
+    File(sfs::File),
+    /// collected and written to the command's stdout afterwards (`2>&1`)
+    Buf(Vec<u8>),
+}
+
+thread_local! {
+    static ERR_STACK: std::cell::RefCell<Vec<ErrTarget>> = const { std::cell::RefCell::new(Vec::new()) };
+}
+
+/// Set when the stand-in meets shell syntax or a command it does not model. A check that sees
+/// this flag reports a harness error instead of mistaking the stand-in's failure for the
+/// behaviour of a real remote shell.
+pub static STUB_UNSUPPORTED: std::sync::Mutex<Option<String>> = std::sync::Mutex::new(None);
+
+fn unsupported(what: &str) {
+    let mut g = STUB_UNSUPPORTED.lock().unwrap();
+    if g.is_none() {
+        *g = Some(what.to_string());
+    }
+}
+
+pub fn take_unsupported() -> Option<String> {
+    STUB_UNSUPPORTED.lock().unwrap().take()
+}
+
 fn eprint_proc(msg: &str) {
-    let _ = sio::stderr().write_all(msg.as_bytes());
+    let handled = ERR_STACK.with(|st| {
+        let mut st = st.borrow_mut();
+        match st.last_mut() {
+            None | Some(ErrTarget::Proc) => false,
+            Some(ErrTarget::Null) => true,
+            Some(ErrTarget::File(f)) => {
+                let _ = f.write_all(msg.as_bytes());
+                true
+            }
+            Some(ErrTarget::Buf(b)) => {
+                b.extend_from_slice(msg.as_bytes());
+                true
+            }
+        }
+    });
+    if !handled {
+        let _ = sio::stderr().write_all(msg.as_bytes());
+    }
 }
 
 fn ssh_main(args: &[String]) -> i32 {
@@ -66,15 +113,32 @@ enum Part {
     Sub(String, bool),
 }
 
+#[derive(Clone, Copy, Debug, PartialEq)]
+enum RedirOp {
+    /// `>`
+    Out,
+    /// `>>`
+    Append,
+    /// `<`
+    In,
+    /// `<>`
+    InOut,
+    /// `>&`
+    DupOut,
+}
+
 #[derive(Clone, Debug, PartialEq)]
 enum Tok {
-    Word(Vec<Part>),
+    /// a word; `plain` = written without any quoting (only then `{` / `}` are reserved words)
+    Word(Vec<Part>, bool),
     And,
     Or,
     Semi,
-    Gt,
-    Lt,
+    /// `[n]>`, `[n]>>`, `[n]<`, `[n]<>`, `[n]>&`
+    Redir(Option<u32>, RedirOp),
     Pipe,
+    LParen,
+    RParen,
 }
 
 fn ansi_c(chars: &[char], i: &mut usize, out: &mut String) -> Result<(), String> {
@@ -155,14 +219,19 @@ fn tokenize(s: &str) -> Result<Vec<Tok>, String> {
     let mut parts: Vec<Part> = Vec::new();
     let mut cur = String::new();
     let mut have = false;
+    let mut quoted = false;
     macro_rules! flush {
         () => {
             if have {
                 if !cur.is_empty() || parts.is_empty() {
                     parts.push(Part::Lit(std::mem::take(&mut cur)));
                 }
-                toks.push(Tok::Word(std::mem::take(&mut parts)));
+                toks.push(Tok::Word(std::mem::take(&mut parts), !quoted));
                 have = false;
+            }
+            #[allow(unused_assignments)]
+            {
+                quoted = false;
             }
         };
     }
@@ -238,18 +307,41 @@ fn tokenize(s: &str) -> Result<Vec<Tok>, String> {
                 toks.push(Tok::Semi);
                 i += 1;
             }
-            '>' => {
+            '>' | '<' => {
+                // a word of digits glued to the operator is a descriptor number
+                let fd = if have && !quoted && parts.is_empty() && !cur.is_empty() && cur.chars().all(|d| d.is_ascii_digit()) {
+                    let n = cur.parse::<u32>().ok();
+                    cur.clear();
+                    have = false;
+                    n
+                } else {
+                    flush!();
+                    None
+                };
+                let next = chars.get(i + 1).copied();
+                let (op, used) = match (c, next) {
+                    ('>', Some('>')) => (RedirOp::Append, 2),
+                    ('>', Some('&')) => (RedirOp::DupOut, 2),
+                    ('<', Some('>')) => (RedirOp::InOut, 2),
+                    ('>', _) => (RedirOp::Out, 1),
+                    (_, _) => (RedirOp::In, 1),
+                };
+                toks.push(Tok::Redir(fd, op));
+                i += used;
+            }
+            '(' => {
                 flush!();
-                toks.push(Tok::Gt);
+                toks.push(Tok::LParen);
                 i += 1;
             }
-            '<' => {
+            ')' => {
                 flush!();
-                toks.push(Tok::Lt);
+                toks.push(Tok::RParen);
                 i += 1;
             }
             '\\' => {
                 i += 1;
+                quoted = true;
                 if i < chars.len() {
                     if chars[i] != '\n' {
                         cur.push(chars[i]);
@@ -260,6 +352,7 @@ fn tokenize(s: &str) -> Result<Vec<Tok>, String> {
             }
             '\'' => {
                 have = true;
+                quoted = true;
                 i += 1;
                 loop {
                     if i >= chars.len() {
@@ -275,6 +368,7 @@ fn tokenize(s: &str) -> Result<Vec<Tok>, String> {
             }
             '"' => {
                 have = true;
+                quoted = true;
                 i += 1;
                 loop {
                     if i >= chars.len() {
@@ -305,6 +399,7 @@ fn tokenize(s: &str) -> Result<Vec<Tok>, String> {
             }
             '$' if i + 1 < chars.len() && chars[i + 1] == '\'' => {
                 have = true;
+                quoted = true;
                 i += 2;
                 ansi_c(&chars, &mut i, &mut cur)?;
             }
@@ -374,6 +469,7 @@ enum Out {
     Proc,
     File(sfs::File),
     Buf(Vec<u8>),
+    Null,
 }
 
 impl Out {
@@ -385,6 +481,7 @@ impl Out {
                 v.extend_from_slice(b);
                 Ok(())
             }
+            Out::Null => Ok(()),
         }
     }
 }
@@ -392,6 +489,9 @@ impl Out {
 enum In {
     Proc,
     File(sfs::File),
+    /// output of the previous pipeline stage (stages run one after the other)
+    Buf(std::io::Cursor<Vec<u8>>),
+    Empty,
 }
 
 impl In {
@@ -399,6 +499,8 @@ impl In {
         match self {
             In::Proc => sio::stdin().read(buf),
             In::File(f) => f.read(buf),
+            In::Buf(c) => c.read(buf),
+            In::Empty => Ok(0),
         }
     }
     fn read_all(&mut self) -> std::io::Result<Vec<u8>> {
@@ -428,108 +530,315 @@ fn run_shell_with(cmd: &str, default_out: &mut Out) -> i32 {
             return 2;
         }
     };
-    // list := cmd ((&&|\|\||;) cmd)*
-    let mut status = 0;
-    let mut i = 0;
-    let mut skip_mode: Option<bool> = None; // Some(true): skip next because of && after failure etc.
-    while i < toks.len() {
-        // collect one simple command
-        let mut words: Vec<Vec<Part>> = Vec::new();
-        let mut redir_out: Option<Vec<Part>> = None;
-        let mut redir_in: Option<Vec<Part>> = None;
-        while i < toks.len() {
-            match &toks[i] {
-                Tok::Word(w) => {
-                    words.push(w.clone());
-                    i += 1;
+    let mut sh = Shell { toks, i: 0, syntax_error: false };
+    let mut inp = In::Proc;
+    let st = sh.list(true, &mut inp, default_out, End::Eof);
+    if sh.syntax_error || sh.i < sh.toks.len() {
+        eprint_proc("bash: -c: syntax error near unexpected token\n");
+        unsupported(&format!("shell syntax the stand-in does not parse: {cmd}"));
+        return 2;
+    }
+    st
+}
+
+#[derive(Clone, Copy, PartialEq)]
+enum End {
+    Eof,
+    Brace,
+    Paren,
+}
+
+struct Redir {
+    fd: Option<u32>,
+    op: RedirOp,
+    target: Vec<Part>,
+}
+
+struct Shell {
+    toks: Vec<Tok>,
+    i: usize,
+    syntax_error: bool,
+}
+
+fn is_plain(tok: Option<&Tok>, lit: &str) -> bool {
+    matches!(tok, Some(Tok::Word(parts, true)) if parts.len() == 1 && parts[0] == Part::Lit(lit.to_string()))
+}
+
+impl Shell {
+    /// list := pipeline ((&& | || | ;) pipeline)* ; with `exec == false` the tokens are only parsed
+    fn list(&mut self, exec: bool, inp: &mut In, out: &mut Out, end: End) -> i32 {
+        let mut status = 0;
+        let mut skip = false;
+        loop {
+            while matches!(self.toks.get(self.i), Some(Tok::Semi)) {
+                self.i += 1;
+                skip = false;
+            }
+            match self.toks.get(self.i) {
+                None => break,
+                Some(Tok::RParen) if end == End::Paren => break,
+                t if end == End::Brace && is_plain(t, "}") => break,
+                _ => {}
+            }
+            let run = exec && !skip;
+            let st = self.pipeline(run, inp, out);
+            if self.syntax_error {
+                return 2;
+            }
+            if run {
+                status = st;
+            }
+            match self.toks.get(self.i) {
+                Some(Tok::And) => {
+                    // a skipped command keeps the previous status
+                    skip = status != 0;
+                    self.i += 1;
                 }
-                Tok::Gt | Tok::Lt => {
-                    let is_out = toks[i] == Tok::Gt;
-                    i += 1;
-                    match toks.get(i) {
-                        Some(Tok::Word(w)) => {
-                            if is_out {
-                                redir_out = Some(w.clone());
-                            } else {
-                                redir_in = Some(w.clone());
-                            }
-                            i += 1;
-                        }
-                        _ => {
-                            eprint_proc("bash: syntax error near unexpected token `newline'\n");
-                            return 2;
-                        }
+                Some(Tok::Or) => {
+                    skip = status == 0;
+                    self.i += 1;
+                }
+                Some(Tok::Semi) => {
+                    skip = false;
+                    self.i += 1;
+                }
+                _ => break,
+            }
+        }
+        status
+    }
+
+    /// pipeline := command (| command)* ; the stages run one after the other, each reading what
+    /// the previous one wrote (no concurrency between stages)
+    fn pipeline(&mut self, exec: bool, inp: &mut In, out: &mut Out) -> i32 {
+        let mut carried: Option<Vec<u8>> = None;
+        loop {
+            // look ahead (parse only): does a `|` follow this command?
+            let save = self.i;
+            self.command(false, &mut In::Empty, &mut Out::Null);
+            if self.syntax_error {
+                return 2;
+            }
+            let more = matches!(self.toks.get(self.i), Some(Tok::Pipe));
+            self.i = save;
+            match (carried.take(), more) {
+                (None, false) => return self.command(exec, inp, out),
+                (None, true) => {
+                    let mut cap = Out::Buf(Vec::new());
+                    self.command(exec, inp, &mut cap);
+                    if let Out::Buf(b) = cap {
+                        carried = Some(b);
                     }
                 }
-                Tok::Pipe => {
-                    eprint_proc("sim-sh: pipelines are not modelled\n");
+                (Some(b), true) => {
+                    let mut sin = In::Buf(std::io::Cursor::new(b));
+                    let mut cap = Out::Buf(Vec::new());
+                    self.command(exec, &mut sin, &mut cap);
+                    if let Out::Buf(b) = cap {
+                        carried = Some(b);
+                    }
+                }
+                (Some(b), false) => {
+                    let mut sin = In::Buf(std::io::Cursor::new(b));
+                    return self.command(exec, &mut sin, out);
+                }
+            }
+            if self.syntax_error {
+                return 2;
+            }
+            self.i += 1; // the `|`
+        }
+    }
+
+    fn redirs(&mut self, into: &mut Vec<Redir>) {
+        while let Some(Tok::Redir(fd, op)) = self.toks.get(self.i).cloned() {
+            self.i += 1;
+            match self.toks.get(self.i) {
+                Some(Tok::Word(w, _)) => {
+                    into.push(Redir { fd, op, target: w.clone() });
+                    self.i += 1;
+                }
+                _ => {
+                    self.syntax_error = true;
+                    return;
+                }
+            }
+        }
+    }
+
+    /// command := `{` list `}` redirs | `(` list `)` redirs | words-and-redirs
+    fn command(&mut self, exec: bool, inp: &mut In, out: &mut Out) -> i32 {
+        let group = if is_plain(self.toks.get(self.i), "{") {
+            Some(End::Brace)
+        } else if matches!(self.toks.get(self.i), Some(Tok::LParen)) {
+            Some(End::Paren)
+        } else {
+            None
+        };
+        if let Some(end) = group {
+            self.i += 1;
+            let body = self.i;
+            // find the end of the group and its redirections first
+            self.list(false, &mut In::Empty, &mut Out::Null, end);
+            let closed = match end {
+                End::Brace => is_plain(self.toks.get(self.i), "}"),
+                _ => matches!(self.toks.get(self.i), Some(Tok::RParen)),
+            };
+            if self.syntax_error || !closed {
+                self.syntax_error = true;
+                return 2;
+            }
+            self.i += 1;
+            let mut rs = Vec::new();
+            self.redirs(&mut rs);
+            if self.syntax_error {
+                return 2;
+            }
+            let after = self.i;
+            if !exec {
+                return 0;
+            }
+            let cwd0 = peek(|st, pid| st.procs[pid as usize].cwd.clone());
+            self.i = body;
+            let st = with_redirs(&rs, inp, out, |i2, o2| self.list(true, i2, o2, end));
+            self.i = after;
+            if end == End::Paren {
+                // a subshell's `cd` does not outlive it
+                peek(move |st, pid| st.procs[pid as usize].cwd = cwd0);
+            }
+            return st;
+        }
+        let mut words: Vec<Vec<Part>> = Vec::new();
+        let mut rs: Vec<Redir> = Vec::new();
+        loop {
+            match self.toks.get(self.i) {
+                Some(Tok::Word(w, _)) => {
+                    words.push(w.clone());
+                    self.i += 1;
+                }
+                Some(Tok::Redir(..)) => {
+                    self.redirs(&mut rs);
+                    if self.syntax_error {
+                        return 2;
+                    }
+                }
+                Some(Tok::LParen) => {
+                    // function definitions, arrays, ... are not modelled
+                    self.syntax_error = true;
                     return 2;
                 }
                 _ => break,
             }
         }
-        let skip = skip_mode.take().unwrap_or(false);
-        if !skip && (!words.is_empty() || redir_out.is_some()) {
-            // expansion happens now, when the command is about to run
-            let w: Vec<String> = words.iter().flat_map(|p| expand(p)).collect();
-            let ro = redir_out.as_ref().map(|p| expand(p).join(" "));
-            let ri = redir_in.as_ref().map(|p| expand(p).join(" "));
-            status = run_simple(&w, ro.as_deref(), ri.as_deref(), default_out);
+        if words.is_empty() && rs.is_empty() {
+            self.syntax_error = true;
+            return 2;
         }
-        // connector
-        match toks.get(i) {
-            Some(Tok::And) => {
-                // a skipped command keeps the previous status
-                skip_mode = Some(status != 0);
-                i += 1;
-            }
-            Some(Tok::Or) => {
-                skip_mode = Some(status == 0);
-                i += 1;
-            }
-            Some(Tok::Semi) => {
-                i += 1;
-            }
-            None => break,
-            Some(_) => {
-                eprint_proc("bash: syntax error\n");
-                return 2;
-            }
+        if !exec {
+            return 0;
         }
+        // expansion happens now, when the command is about to run
+        let w: Vec<String> = words.iter().flat_map(|p| expand(p)).collect();
+        with_redirs(&rs, inp, out, |i2, o2| {
+            if w.is_empty() {
+                return 0;
+            }
+            run_cmd(&w[0], &w[1..], i2, o2)
+        })
     }
-    status
 }
 
-fn run_simple(words: &[String], rout: Option<&str>, rin: Option<&str>, default_out: &mut Out) -> i32 {
-    // redirections are opened by the shell before the command runs
-    let mut file_out: Option<Out> = None;
-    if let Some(p) = rout {
-        match sfs::File::create(p) {
-            Ok(f) => file_out = Some(Out::File(f)),
-            Err(e) => {
-                eprint_proc(&format!("bash: {p}: {}\n", os_msg(&e)));
-                return 1;
+/// Open the redirections (left to right, as the shell does before the command runs), run `f`
+/// with the resulting stdin/stdout, and undo them.
+fn with_redirs(rs: &[Redir], inp: &mut In, out: &mut Out, f: impl FnOnce(&mut In, &mut Out) -> i32) -> i32 {
+    let mut new_out: Option<Out> = None;
+    let mut new_in: Option<In> = None;
+    let mut pushed = 0usize;
+    let mut out_to_err = false;
+    let mut fail: Option<i32> = None;
+    for r in rs {
+        let p = expand(&r.target).join(" ");
+        let fd = r.fd.unwrap_or(match r.op {
+            RedirOp::In | RedirOp::InOut => 0,
+            _ => 1,
+        });
+        let open = |opts: &mut sfs::OpenOptions| opts.open(&p);
+        let opened: Result<(), std::io::Error> = (|| {
+            match (fd, r.op) {
+                (1, RedirOp::Out) if p == "/dev/null" => new_out = Some(Out::Null),
+                (1, RedirOp::Out) => new_out = Some(Out::File(sfs::File::create(&p)?)),
+                (1, RedirOp::Append) if p == "/dev/null" => new_out = Some(Out::Null),
+                (1, RedirOp::Append) => new_out = Some(Out::File(open(sfs::OpenOptions::new().append(true).create(true))?)),
+                (1, RedirOp::InOut) => new_out = Some(Out::File(open(sfs::OpenOptions::new().read(true).write(true).create(true))?)),
+                (0, RedirOp::In) if p == "/dev/null" => new_in = Some(In::Empty),
+                (0, RedirOp::In) => new_in = Some(In::File(sfs::File::open(&p)?)),
+                (0, RedirOp::InOut) => new_in = Some(In::File(open(sfs::OpenOptions::new().read(true).write(true).create(true))?)),
+                (2, RedirOp::Out | RedirOp::Append) if p == "/dev/null" => {
+                    ERR_STACK.with(|s| s.borrow_mut().push(ErrTarget::Null));
+                    pushed += 1;
+                }
+                (2, RedirOp::Out) => {
+                    let f = sfs::File::create(&p)?;
+                    ERR_STACK.with(|s| s.borrow_mut().push(ErrTarget::File(f)));
+                    pushed += 1;
+                }
+                (2, RedirOp::Append) => {
+                    let f = open(sfs::OpenOptions::new().append(true).create(true))?;
+                    ERR_STACK.with(|s| s.borrow_mut().push(ErrTarget::File(f)));
+                    pushed += 1;
+                }
+                (2, RedirOp::DupOut) if p == "1" => {
+                    ERR_STACK.with(|s| s.borrow_mut().push(ErrTarget::Buf(Vec::new())));
+                    pushed += 1;
+                }
+                (1, RedirOp::DupOut) if p == "2" => {
+                    new_out = Some(Out::Buf(Vec::new()));
+                    out_to_err = true;
+                }
+                _ => {
+                    unsupported(&format!("redirection {fd}{:?} {p}", r.op));
+                    return Err(std::io::Error::new(std::io::ErrorKind::Unsupported, "redirection not modelled"));
+                }
             }
+            Ok(())
+        })();
+        if let Err(e) = opened {
+            eprint_proc(&format!("bash: line 1: {p}: {}\n", os_msg(&e)));
+            fail = Some(1);
+            break;
         }
     }
-    let out: &mut Out = match file_out.as_mut() {
-        Some(o) => o,
-        None => default_out,
+    let st = match fail {
+        Some(st) => st,
+        None => {
+            let i2: &mut In = match new_in.as_mut() {
+                Some(i) => i,
+                None => inp,
+            };
+            let o2: &mut Out = match new_out.as_mut() {
+                Some(o) => o,
+                None => &mut *out,
+            };
+            f(i2, o2)
+        }
     };
-    let mut inp = In::Proc;
-    if let Some(p) = rin {
-        match sfs::File::open(p) {
-            Ok(f) => inp = In::File(f),
-            Err(e) => {
-                eprint_proc(&format!("bash: {p}: {}\n", os_msg(&e)));
-                return 1;
-            }
+    // undo the stderr redirections (innermost first); `2>&1` output goes to the command's stdout
+    for _ in 0..pushed {
+        let t = ERR_STACK.with(|s| s.borrow_mut().pop());
+        if let Some(ErrTarget::Buf(b)) = t {
+            let target: &mut Out = match new_out.as_mut() {
+                Some(o) if !out_to_err => o,
+                _ => &mut *out,
+            };
+            let _ = target.write_all(&b);
         }
     }
-    if words.is_empty() {
-        return 0;
+    if out_to_err {
+        if let Some(Out::Buf(b)) = new_out {
+            eprint_proc(&String::from_utf8_lossy(&b));
+        }
     }
-    run_cmd(&words[0], &words[1..], &mut inp, out)
+    st
 }
 
 fn os_msg(e: &std::io::Error) -> String {
@@ -619,8 +928,11 @@ fn run_cmd(name: &str, args: &[String], inp: &mut In, out: &mut Out) -> i32 {
             argv.extend(args.iter().cloned());
             copia_simworld::shim::tokio_rt::block_on(crate::copia_main::verif_entry::run_cli(argv))
         }
+        "fallocate" => cmd_fallocate(args),
+        "truncate" => cmd_truncate(args),
         other => {
             eprint_proc(&format!("bash: line 1: {other}: command not found\n"));
+            unsupported(&format!("command the stand-in does not model: {other}"));
             127
         }
     }
@@ -1241,4 +1553,92 @@ mod tests {
         assert_eq!(t[2], Tok::Word(vec![Part::Lit("a'b c.copia-tmp".into())]));
         assert_eq!(t[6], Tok::Word(vec![Part::Lit("x\\y".into())]));
     }
+}
+
+
+/// `-X N` or `-XN` / `--long N` or `--long=N` for the two size commands below
+fn size_opt(args: &[String], short: &str, long: &str) -> (Option<String>, Vec<String>) {
+    let mut val = None;
+    let mut rest = Vec::new();
+    let mut i = 0;
+    while i < args.len() {
+        let a = &args[i];
+        if a == short || a == long {
+            val = args.get(i + 1).cloned();
+            i += 2;
+            continue;
+        }
+        if let Some(v) = a.strip_prefix(&format!("{long}=")) {
+            val = Some(v.to_string());
+        } else if a.starts_with(short) && a.len() > short.len() && !a.starts_with("--") {
+            val = Some(a[short.len()..].to_string());
+        } else if a == "--" {
+            rest.extend(args[i + 1..].iter().cloned());
+            break;
+        } else {
+            rest.push(a.clone());
+        }
+        i += 1;
+    }
+    (val, rest)
+}
+
+/// util-linux `fallocate -l N FILE`: make sure FILE has at least N bytes allocated (extends it
+/// with zeros, never shrinks it); N must be a positive decimal byte count here.
+fn cmd_fallocate(args: &[String]) -> i32 {
+    let (len, files) = size_opt(args, "-l", "--length");
+    let Some(n) = len.as_deref().and_then(|v| v.parse::<u64>().ok()) else {
+        eprint_proc("fallocate: no length argument specified\n");
+        return 1;
+    };
+    if n == 0 {
+        eprint_proc("fallocate: invalid length value specified\n");
+        return 1;
+    }
+    let Some(f) = files.first() else {
+        eprint_proc("fallocate: no filename specified\n");
+        return 1;
+    };
+    match sfs::OpenOptions::new().read(true).write(true).create(true).open(f) {
+        Ok(fh) => {
+            let cur = fh.metadata().map(|m| m.len()).unwrap_or(0);
+            if cur < n {
+                if let Err(e) = fh.set_len(n) {
+                    eprint_proc(&format!("fallocate: fallocate failed: {}\n", os_msg(&e)));
+                    return 1;
+                }
+            }
+            0
+        }
+        Err(e) => {
+            eprint_proc(&format!("fallocate: cannot open {f}: {}\n", os_msg(&e)));
+            1
+        }
+    }
+}
+
+/// GNU `truncate -s N FILE...`: set the size (creating the file), N a plain decimal byte count.
+fn cmd_truncate(args: &[String]) -> i32 {
+    let (len, files) = size_opt(args, "-s", "--size");
+    let Some(n) = len.as_deref().and_then(|v| v.parse::<u64>().ok()) else {
+        eprint_proc("truncate: you must specify either '--size' or '--reference'\n");
+        unsupported("truncate with a relative or suffixed size");
+        return 1;
+    };
+    let mut st = 0;
+    for f in &files {
+        match sfs::OpenOptions::new().write(true).create(true).open(f) {
+            Ok(fh) => {
+                if let Err(e) = fh.set_len(n) {
+                    eprint_proc(&format!("truncate: failed to truncate '{f}' at {n} bytes: {}\n", os_msg(&e)));
+                    st = 1;
+                }
+            }
+            Err(e) => {
+                eprint_proc(&format!("truncate: cannot open '{f}' for writing: {}\n", os_msg(&e)));
+                st = 1;
+            }
+        }
+    }
+    st
 }
